@@ -16,11 +16,16 @@ Definition site := N.       (* allocation sites, numbered globally *)
 Definition fname := N.
 Definition field := N.     (* 0 = unknown position / any field *)
 Definition ret_var : var := 0.
+(* the reserved allocation site of immutable scalars (the translator numbers its
+   sites from 1; the checker rejects an EAlloc at this site) *)
+Definition LEAF_SITE : site := 0.
 
 (* How a value is obtained.  Only object identity matters:
    EVar y      the object bound to y (alias)
    ELoad y f   some object held by the container y (element, dict value or key,
-               attribute) in a field matching f (see [fmatch])
+               attribute) in a field matching f (see [fmatch]), or a NEW immutable
+               scalar (y[i] on an array of numbers, an element of range(n), a string
+               key: objects of the reserved site [LEAF_SITE], which nothing can modify)
    EReach ys   some object reachable in zero or more steps from one of ys (result
                of an opaque call: library function, user callback, graph view)
    EAlloc s cf shallow copy deep view
@@ -179,8 +184,13 @@ Fixpoint bt_look (h : list (site * list var)) (s : site) : list var :=
   end.
 (* what an abstract object may hold: an object that existed before the call and was
    first reached through parameter q only holds objects reachable from q, and what the
-   function itself has stored into pre-existing objects *)
+   function itself has stored into pre-existing objects.
+   Immutable scalars (site LEAF_SITE) are not recorded in the abstract heap: every
+   object may hold them. *)
+Definition ALeaf : aobj := ASite LEAF_SITE.
+Definition noleaf (l : aset_t) : aset_t := PositiveSet.remove ALeaf l.
 Definition hpts (H : aheap) (f : field) (a : aobj) : aset_t :=
+  aunion (asingle ALeaf)
   match a with
   | xI _ => aunion (asingle a) (fm_match (po H) f)
   | xO p => hp_match (hp H) (Pos.pred_N p) f
@@ -198,23 +208,30 @@ Definition taint (H : aheap) (l : aset_t) : list var :=
 Definition aload (H : aheap) (f : field) (l : aset_t) : aset_t :=
   fold_right (fun a acc => aunion (hpts H f a) acc) aempty (aelems l).
 
-(* worklist closure: every abstract object is expanded once *)
-Fixpoint areach_wl (H : aheap) (k : nat) (todo : list aobj) (acc : aset_t) : aset_t :=
-  match k with
-  | O => acc
-  | S k' =>
-    match todo with
-    | [] => acc
-    | a :: todo' =>
-      if amem a acc then areach_wl H k' todo' acc
-      else areach_wl H k' (aelems (hpts H 0 a) ++ todo') (PositiveSet.add a acc)
+(* worklist closure: every abstract object is expanded once.  [wl_iter H k] runs up to
+   2^k steps and stops as soon as the worklist is empty (the result is CHECKED below, so
+   nothing depends on the bound) *)
+Definition wl_state := (list aobj * aset_t)%type.
+Definition wl_step (H : aheap) (st : wl_state) : wl_state :=
+  match fst st with
+  | [] => st
+  | a :: todo' =>
+    if amem a (snd st) then (todo', snd st)
+    else (aelems (hpts H 0 a) ++ todo', PositiveSet.add a (snd st))
+  end.
+Fixpoint wl_iter (H : aheap) (k : nat) (st : wl_state) : wl_state :=
+  match fst st with
+  | [] => st
+  | _ :: _ =>
+    match k with
+    | O => wl_step H st
+    | S k' => wl_iter H k' (wl_iter H k' st)
     end
   end.
-Definition fm_size (m : fmap) : nat := fold_right (fun gv n => S (PositiveSet.cardinal (snd gv) + n)) O m.
-Definition hp_size (h : list (site * fmap)) : nat := fold_right (fun sm n => S (fm_size (snd sm) + n)) O h.
 Definition areach_any (H : aheap) (l : aset_t) : aset_t :=
-  let n := PositiveSet.cardinal l in
-  areach_wl H (S (hp_size (hp H) + hp_size (hp H) + n + n)) (aelems l) aempty.
+  snd (wl_iter H 40 (aelems l, aempty)).
+(* only ever run by vm_compute; conversion must not try to unfold 2^40 steps *)
+Strategy opaque [wl_iter areach_any].
 Definition aclosed (H : aheap) (r : aset_t) : bool :=
   forallb (fun a => asubset (hpts H 0 a) r) (aelems r).
 (* reflexive-transitive closure; the result is CHECKED to be closed, so that the
@@ -245,15 +262,17 @@ Fixpoint eval_expr (H : aheap) (E : aenv) (e : expr) : option aset_t :=
     match areach H (alooks E dp) with
     | None => None
     | Some rd =>
-      let need := aunion (alooks E sh) (aunion (aload H cf (alooks E cp)) rd) in
-      if asubset need (hp_look (hp H) s 0) && nsubset (taint H (alooks E vw)) (bt_look (bt H) s)
+      let need := noleaf (aunion (alooks E sh) (aunion (aload H cf (alooks E cp)) rd)) in
+      if negb (s =? LEAF_SITE) && asubset need (hp_look (hp H) s 0)
+         && nsubset (taint H (alooks E vw)) (bt_look (bt H) s)
       then Some (asingle (ASite s)) else None
     end
   end.
 
-Definition store_ok (H : aheap) (f : field) (targets vals : aset_t) : bool :=
+Definition store_ok (H : aheap) (f : field) (targets vals0 : aset_t) : bool :=
+  let vals := noleaf vals0 in
   forallb (fun a => match a with
-                     | xO p => asubset vals (hp_look (hp H) (Pos.pred_N p) f)
+                     | xO p => (Pos.pred_N p =? LEAF_SITE) || asubset vals (hp_look (hp H) (Pos.pred_N p) f)
                      | xI _ => asubset vals (fm_look (po H) f)
                      | xH => true
                      end)
@@ -354,16 +373,18 @@ Fixpoint infer_expr (H : aheap) (E : aenv) (e : expr) : aheap * aset_t :=
   | ELoad y f => (H, aload H f (alook E y))
   | EReach ys => (H, areach_any H (alooks E ys))
   | EAlloc s cf sh cp dp vw =>
-    let need := aunion (alooks E sh) (aunion (aload H cf (alooks E cp)) (areach_any H (alooks E dp))) in
+    let need := noleaf (aunion (alooks E sh) (aunion (aload H cf (alooks E cp)) (areach_any H (alooks E dp)))) in
     let tv := taint H (alooks E vw) in
     (mkheap (if aisempty need then hp H else hp_add (hp H) s 0 need)
             (match tv with [] => bt H | _ => bt_add (bt H) s tv end) (po H), asingle (ASite s))
   end.
 
-Definition infer_store (H : aheap) (f : field) (targets vals : aset_t) : aheap :=
+Definition infer_store (H : aheap) (f : field) (targets vals0 : aset_t) : aheap :=
+  let vals := noleaf vals0 in
   if aisempty vals then H else
   fold_left (fun H a => match a with
-                        | xO p => mkheap (hp_add (hp H) (Pos.pred_N p) f vals) (bt H) (po H)
+                        | xO p => if Pos.pred_N p =? LEAF_SITE then H
+                                  else mkheap (hp_add (hp H) (Pos.pred_N p) f vals) (bt H) (po H)
                         | xI _ => mkheap (hp H) (bt H) (fm_add (po H) f vals)
                         | xH => H
                         end)
@@ -404,6 +425,8 @@ Fixpoint infer (p : program) (depth : nat) : stmt -> aheap -> aenv -> aheap * ae
       end
   end.
 
+Definition fm_size (m : fmap) : nat := fold_right (fun gv n => S (PositiveSet.cardinal (snd gv) + n)) O m.
+Definition hp_size (h : list (site * fmap)) : nat := fold_right (fun sm n => S (fm_size (snd sm) + n)) O h.
 Definition heap_size (H : aheap) : nat :=
   (hp_size (hp H)
    + fold_right (fun sv n => List.length (snd sv) + n) 0 (bt H) + List.length (bt H)
@@ -526,6 +549,9 @@ Inductive eval (h : heap) (e : env) : expr -> heap -> loc -> Prop :=
 | ev_var y l : e y = Some l -> eval h e (EVar y) h l
 | ev_load y f l0 g l : e y = Some l0 -> kids h l0 g l -> fmatch f g = true ->
     eval h e (ELoad y f) h l
+| ev_load_leaf y f l0 h' l : e y = Some l0 ->
+    alloc_rel h h' l LEAF_SITE -> base h' l = l -> (forall g k, ~ kids h' l g k) ->
+    eval h e (ELoad y f) h' l
 | ev_reach ys y l0 l : In y ys -> e y = Some l0 -> reach h l0 l -> eval h e (EReach ys) h l
 | ev_alloc s cf sh cp dp vw h' l :
     alloc_rel h h' l s ->
@@ -539,7 +565,9 @@ Inductive eval (h : heap) (e : env) : expr -> heap -> loc -> Prop :=
 | ev_choice_r a b h' l : eval h e b h' l -> eval h e (EChoice a b) h' l.
 
 (* in-place modification of l: afterwards l may hold its old references and
-   references to the objects of ys; nothing else changes *)
+   references to the objects of ys; nothing else changes.  (Objects of the site
+   LEAF_SITE are immutable scalars: [ex_write] has no rule for them, as Python has no
+   in-place operation on an int, a float or a string.) *)
 Definition write_rel (h h' : heap) (e : env) (l : loc) (f : field) (ys : list var) : Prop :=
   next h' = next h /\
   (forall m, site_of h' m = site_of h m) /\
@@ -569,6 +597,7 @@ Inductive exec (p : program) : stmt -> state -> outcome -> state -> Prop :=
     exec p (SAssign x e) st Normal (mkst (upd (st_env st) x (Some l)) h' (st_log st))
 | ex_write ln x f ys st l h' :
     st_env st x = Some l ->
+    site_of (st_heap st) l <> LEAF_SITE ->
     write_rel (st_heap st) h' (st_env st) l f ys ->
     exec p (SWrite ln x f ys) st Normal (mkst (st_env st) h' (base (st_heap st) l :: st_log st))
 | ex_seq a b st st1 o st2 :
